@@ -136,9 +136,10 @@ namespace via
     /// @param response the response to send.
     void set_version(http::tx_response& response) const
     {
-      // Note: the request is unknown if it was invalid or has already been
-      // cleared, in which case the response is sent as HTTP/1.1
-      if (rx_.request().major_version() != 0)
+      // Note: the request is unknown if it was invalid, has already been
+      // cleared or is the partially received next request, in which case
+      // the response is sent as HTTP/1.1
+      if (rx_.request().valid())
       {
         response.set_major_version(rx_.request().major_version());
         response.set_minor_version(rx_.request().minor_version());
